@@ -43,4 +43,9 @@ if ! (cd harness && go build -o verifcheck.tmp . && mv verifcheck.tmp verifcheck
   echo "harness-build-failed" >> $STATUS
   rm -f harness/verifcheck
 fi
+# 5. the -race build of the concurrency stress (C16)
+if ! (cd harness && go build -race -o verifrace.tmp ./racecheck && mv verifrace.tmp verifrace) >> .work/harness.log 2>&1; then
+  echo "race-build-failed" >> $STATUS
+  rm -f harness/verifrace
+fi
 exit 0
